@@ -447,6 +447,36 @@ Definition devinfo (t : Z) (s : list Z) : A (list Z) :=
   ret [n; len r2].
 
 (* =========================================================================================
+   6. transform.B64.Read / decodeShift (c2/transform/base64.go).  encoding/base64 is not
+      modelled: what StdEncoding.Decode answers for the input is an OBSERVED input `dec` (the
+      decoded bytes, or an error); its contract (at most DecodedLen(len p) bytes) is a hypothesis of
+      the theorems.  The buffer is the pooled one (at least 512 bytes, grown to n) or a fresh
+      make([]byte, n) above bufMax: at least max(n, 512) bytes either way.
+   ========================================================================================= *)
+Definition b64_decoded_len (n : Z) : Z := n / 4 * 3.
+
+(* for x := 0; x < n; x++ { o[x] -= b }   (o is the buffer behind the pointer) *)
+Fixpoint shift_loop (k : nat) (o : list Z) (x b : Z) : res (list Z) :=
+  match k with
+  | O => Ok o
+  | S k' => do v <- idx o x; shift_loop k' (take x o ++ u8 (v - b) :: drop (x + 1) o) (x + 1) b
+  end.
+
+Definition b64_read (shift : Z) (dec : res (list Z)) (p : list Z) : A (list Z) :=
+  let n := b64_decoded_len (len p) in
+  let blen := Z.max n 512 in
+  al _ <- mk n;
+  match dec with
+  | Err e => lift (Err e)
+  | Panic => lift Panic
+  | Ok d =>
+    let o := take blen (d ++ repeat 0 (Z.to_nat (blen - len d))) in
+    al o' <- lift (if shift =? 0 then Ok o else shift_loop (Z.to_nat (len d)) o 0 shift);
+    al w <- lift (slice o' 0 (len d));
+    ret w
+  end.
+
+(* =========================================================================================
    correspondence cases
    ========================================================================================= *)
 Inductive dec :=
@@ -501,13 +531,19 @@ Definition alloc_class_ok (a n cls : Z) : bool :=
   else 256 * MiB <? a.
 
 (* input, observed outcome (digest), observed allocation class.  With class 2 there is no outcome. *)
-Inductive case := C (d : dec) (input : list Z) (out : res (list Z)) (cls : Z).
+Inductive case :=
+| C (d : dec) (input : list Z) (out : res (list Z)) (cls : Z)
+| CB64 (shift : Z) (input : list Z) (observed_decode : res (list Z)) (out : res (list Z)) (cls : Z).
 
 (* errors: the two EOF flavours are compared exactly; EFuel never matches anything observed *)
 Definition check (c : case) : bool :=
   match c with
   | C d input out cls =>
     let r := run d input in
+    alloc_class_ok (alloc r) (len input) cls &&
+    ((cls =? 2) || res_eqb zlist_eqb (outcome r) out)
+  | CB64 shift input dec out cls =>
+    let r := b64_read shift dec input in
     alloc_class_ok (alloc r) (len input) cls &&
     ((cls =? 2) || res_eqb zlist_eqb (outcome r) out)
   end.
